@@ -15,7 +15,7 @@ func init() {
 			return o.Hist.Probes["request-surely-inside-period"] > 0
 		},
 		Rule:         "seeded plans on one key: hit-for-pass in {unset, 0s, -1s, 1s, 2s, 5s, 300s}; origin answers alternate cacheable / uncacheable / failing; bursts of 1-6 concurrent requests before, during (replies withheld until every other action is exhausted: a request that can only proceed after another's reply is queueing) and after the period; default period bracketed at +299s / +302s. non-trivial = at least one request lay surely inside a hit-for-pass period; distinct = distinct history hash",
-		ExpectProbes: []string{"request-surely-inside-period", "burst-inside-period-withheld", "request-after-period", "default-period-299s", "default-period-302s", "probe-after-period-cacheable"},
+		ExpectProbes: []string{"request-surely-inside-period", "burst-inside-period-withheld", "request-after-period", "default-period-299s", "default-period-302s", "probe-after-period-cacheable", "waiter-released-by-uncacheable-fetch"},
 	})
 }
 
@@ -23,6 +23,15 @@ func genC07(g *Gen) *Plan {
 	hfpCfg := pick(g, "", "0s", "-1s", "1s", "2s", "5s", "300s")
 	p := &Plan{Profile: "C07", Seed: g.Seed, Policy: g.policy(), ClockMenuMs: []int{100, 500, 1000}, ClockWeight: pick(g, 0.0, 0.03, 0.1), MaxSteps: 2500}
 	cfg := baseConfig(1000, hfpCfg, "")
+	withStore := g.p(0.3)
+	if withStore {
+		// persisted markers: the entry is pushed out of a one-entry shard by other keys (and the
+		// instance may be stopped and started again) inside the period - the marker comes back
+		// from the store and the key must keep passing without queueing
+		cfg = baseConfig(8, hfpCfg, storeURL)
+		p.ShardMode = "one"
+		p.InlineStore = true
+	}
 	cfg.Locations[0].ProxyTimeout = "3s"
 	p.Configs = []Config{cfg}
 	hfp := hfpSeconds(&cfg, "c1")
@@ -77,6 +86,14 @@ func genC07(g *Gen) *Plan {
 			inside = g.n(0, max(0, hfp*1000-900))
 		}
 		p.Ops = append(p.Ops, sleepOp(inside, true))
+		if withStore {
+			ev := reqOp("GET", hostA, fmt.Sprintf("/evictor%d", rd))
+			ev.Barrier = true
+			p.Ops = append(p.Ops, ev)
+			if g.p(0.3) {
+				p.Ops = append(p.Ops, Op{Kind: OpStop, Barrier: true})
+			}
+		}
 		for i := 0; i < g.n(1, 6); i++ {
 			p.Ops = append(p.Ops, req(i == 0))
 		}
@@ -97,6 +114,9 @@ func genC07(g *Gen) *Plan {
 // oracleC01as re-labels the single flight oracle (used after the period lapsed).
 func oracleC01as(prop string) func(o *Outcome) []Violation {
 	return func(o *Outcome) []Violation {
+		if o.Plan.Configs[0].Caches[0].Size < 1000 {
+			return nil // the single-flight oracle assumes that nothing is evicted
+		}
 		vs := oracleC01(o)
 		for i := range vs {
 			vs[i].Property = prop
@@ -112,6 +132,27 @@ func oracleC07(o *Outcome) []Violation {
 	byReq := map[*ReqRec]*View{}
 	for _, v := range views {
 		byReq[v.R] = v
+	}
+	// a request released by a fetch that turned out uncacheable (or failed) proceeds to the
+	// upstream itself: it is never answered from whatever the entry still holds
+	for _, v := range views {
+		r := v.R
+		if r.ReleasedBy < 0 || r.ReturnSeq < 0 {
+			continue
+		}
+		f := o.reqOfTask(r.ReleasedBy)
+		if f == nil || f.Key != r.Key || len(f.Ups) != 1 {
+			continue
+		}
+		fu := o.Hist.Ups[f.Ups[0]]
+		if fu.Shareable || fu.Verdict.Ambiguous || fu.EndSeq == 0 {
+			continue
+		}
+		o.Hist.Probes["waiter-released-by-uncacheable-fetch"]++
+		if len(v.OwnUps) == 0 && (v.Kind == "origin" || v.Kind == "unattributed") {
+			out = append(out, violation("C07", "released-waiter-answered-without-upstream", "request released by an uncacheable / failed fetch was answered without contacting the upstream",
+				"client op %d %s was released by the fetcher of #%d (not shareable: %s) and then answered (status %d, label %q, reply #%d) without an upstream request of its own", r.Op, r.Key, fu.Serial, faultOf(fu), r.Res.Status, v.XStatus, v.Serial))
+		}
 	}
 	withheld := len(o.Plan.Withhold) > 0
 	for _, u0 := range o.Hist.Ups {
@@ -131,6 +172,11 @@ func oracleC07(o *Outcome) []Violation {
 		}
 		// marker set in [end(u0), return(c0)], in force while now <= set + hfp
 		earliestLapse := secFloor(endT(u0)) + int64(hfp)
+		if cfg.Caches[0].Store != "" {
+			// a persisted marker lives for (expiry - now) whole seconds counted from the instant it
+			// was saved, i.e. it may lapse up to one second before the in-memory one would
+			earliestLapse--
+		}
 		latestLapse := secFloor(c0.ReturnT) + int64(hfp)
 		var inside []*View
 		for _, v := range views {
